@@ -584,3 +584,89 @@ Proof.
     try (subst; split; reflexivity); try (rewrite Hab; split; reflexivity).
   destruct Hab as [-> ->]. split; reflexivity.
 Qed.
+
+(* ------------------------------------------------------------------ payloads (value view, `__iter__`)
+   Unconditional facts about the payload map: an operation writes exactly the payloads of the nodes it creates, at
+   the next unused addresses in creation order, and touches no other payload - whatever the links look like. *)
+Definition new_vals (op : dop) : list Z :=
+  match op with
+  | DAppend x | DPrepend x => [x]
+  | DExtend xs | DPreExtend xs => xs
+  | _ => []
+  end.
+Definition payloads (ops : list dop) : list Z := flat_map new_vals ops.
+
+Lemma fold_append_fresh xs : forall h, fresh (fold_left h_append xs h) = fresh h + length xs.
+Proof. induction xs as [|x xs IH]; intros h; simpl; [lia|]. rewrite IH. simpl. lia. Qed.
+Lemma fold_prepend_fresh xs : forall h, fresh (fold_left h_prepend xs h) = fresh h + length xs.
+Proof. induction xs as [|x xs IH]; intros h; simpl; [lia|]. rewrite IH. simpl. lia. Qed.
+
+Lemma fold_append_new xs : forall h i, i < length xs -> dat (fold_left h_append xs h) (fresh h + i) = nth i xs 0%Z.
+Proof.
+  induction xs as [|x xs IH]; intros h i Hi; simpl in Hi; [lia|]. cbn [fold_left]. destruct i as [|i].
+  - rewrite fold_append_dat by (simpl; lia). simpl. unfold upd. rewrite Nat.add_0_r, Nat.eqb_refl. reflexivity.
+  - replace (fresh h + S i) with (fresh (h_append h x) + i) by (simpl; lia). rewrite IH by lia. reflexivity.
+Qed.
+Lemma fold_prepend_new xs : forall h i, i < length xs -> dat (fold_left h_prepend xs h) (fresh h + i) = nth i xs 0%Z.
+Proof.
+  induction xs as [|x xs IH]; intros h i Hi; simpl in Hi; [lia|]. cbn [fold_left]. destruct i as [|i].
+  - rewrite fold_prepend_dat by (simpl; lia). simpl. unfold upd. rewrite Nat.add_0_r, Nat.eqb_refl. reflexivity.
+  - replace (fresh h + S i) with (fresh (h_prepend h x) + i) by (simpl; lia). rewrite IH by lia. reflexivity.
+Qed.
+
+Lemma remove_dat_fresh h k : dat (h_remove h k) = dat h /\ fresh (h_remove h k) = fresh h.
+Proof. split; reflexivity. Qed.
+
+Theorem step_payloads h op :
+  fresh (fst (h_step h op)) = fresh h + length (new_vals op)
+  /\ (forall m, m < fresh h -> dat (fst (h_step h op)) m = dat h m)
+  /\ (forall i, i < length (new_vals op) -> dat (fst (h_step h op)) (fresh h + i) = nth i (new_vals op) 0%Z).
+Proof.
+  destruct op as [x|x|xs|xs|k| | |k|k|k j|b]; cbn [h_step new_vals fst length].
+  - split; [simpl; lia|]. split.
+    + intros m Hm. simpl. unfold upd. destruct (m =? fresh h) eqn:E; nb; [lia | reflexivity].
+    + intros i Hi. assert (i = 0) by lia. subst i. simpl. unfold upd. rewrite Nat.add_0_r, Nat.eqb_refl. reflexivity.
+  - split; [simpl; lia|]. split.
+    + intros m Hm. simpl. unfold upd. destruct (m =? fresh h) eqn:E; nb; [lia | reflexivity].
+    + intros i Hi. assert (i = 0) by lia. subst i. simpl. unfold upd. rewrite Nat.add_0_r, Nat.eqb_refl. reflexivity.
+  - split; [apply fold_append_fresh|]. split; [apply fold_append_dat | apply fold_append_new].
+  - split; [apply fold_prepend_fresh|]. split; [apply fold_prepend_dat | apply fold_prepend_new].
+  - split; [simpl; lia|]. split; [reflexivity | simpl; lia].
+  - unfold h_pop_back. destruct (tail h); cbn [fst]; (split; [simpl; lia|]; split; [reflexivity | simpl; lia]).
+  - unfold h_pop_front. destruct (head h); cbn [fst]; (split; [simpl; lia|]; split; [reflexivity | simpl; lia]).
+  - unfold h_move_to_front. destruct (head h); [destruct (prv h k)|]; cbn [fst];
+      (split; [simpl; lia|]; split; [reflexivity | simpl; lia]).
+  - unfold h_move_to_back. destruct (head h); [destruct (nxt h k)|]; cbn [fst];
+      (split; [simpl; lia|]; split; [reflexivity | simpl; lia]).
+  - unfold h_move_after. destruct (k =? j); (split; [simpl; lia|]; split; [reflexivity | simpl; lia]).
+  - unfold h_rotate. destruct (head h), (tail h); try destruct (_ =? _); try destruct b;
+      (split; [simpl; lia|]; split; [reflexivity | simpl; lia]).
+Qed.
+
+Theorem exec_payloads : forall ops h,
+  fresh (fst (h_exec h ops)) = fresh h + length (payloads ops)
+  /\ (forall m, m < fresh h -> dat (fst (h_exec h ops)) m = dat h m)
+  /\ (forall i, i < length (payloads ops) -> dat (fst (h_exec h ops)) (fresh h + i) = nth i (payloads ops) 0%Z).
+Proof.
+  induction ops as [|op r IH]; intros h; cbn [h_exec payloads flat_map].
+  - simpl. split; [lia|]. split; [reflexivity | intros i Hi; lia].
+  - destruct (step_payloads h op) as (F1 & D1 & N1). destruct (h_step h op) as [h1 o] eqn:S. cbn [fst] in *.
+    destruct (IH h1) as (F2 & D2 & N2). destruct (h_exec h1 r) as [h2 os]. cbn [fst] in *.
+    fold (payloads r). rewrite app_length. split; [lia|]. split.
+    + intros m Hm. rewrite D2 by lia. apply D1. exact Hm.
+    + intros i Hi. destruct (Nat.lt_ge_cases i (length (new_vals op))) as [Hlt|Hge].
+      * rewrite app_nth1 by exact Hlt. rewrite D2 by lia. apply N1. exact Hlt.
+      * rewrite app_nth2 by exact Hge. rewrite <- (N2 (i - length (new_vals op))) by lia. f_equal. lia.
+Qed.
+
+(* what iteration yields after any history: the payloads given at creation, placed as the reference sequence says *)
+Theorem dll_values : forall ops, ops_ok [] 0 ops ->
+  let h := fst (h_exec h_init ops) in
+  map (dat h) (forward h) = map (fun a => nth a (payloads ops) 0%Z) (ref_exec [] 0 ops)
+  /\ fresh h = length (payloads ops).
+Proof.
+  intros ops Hok h. pose proof (dll_refines_list ops h_init [] wf_init Hok) as W. fold h in W.
+  destruct (exec_payloads ops h_init) as (F & _ & N). fold h in F, N. simpl in F, N.
+  destruct (wf_observable h _ W) as (Fw & _). rewrite Fw. split; [|exact F].
+  apply map_ext_in. intros a Ha. apply N. rewrite <- F. apply (wf_fresh h _ W). exact Ha.
+Qed.
